@@ -28,6 +28,11 @@ CGS_OF = {"solar_mass": "g", "earth_mass": "g", "jupiter_mass": "g", "solar_radi
 INCOMPAT = [("m", "g"), ("s", "cm"), ("erg", "g/cm**3"), ("M_sun", "R_sun"), ("dimensionless", "cm"), ("cm/s", "cm")]
 
 
+SPELLINGS = [("cm / s", "cm/s", True), ("g/cm**3", "g / cm ** 3", True), ("m s", "m*s", True), ("ms", "millisecond", True),
+             ("m s", "ms", False), ("m K", "mK", False), ("m s**-1", "ms**-1", False), ("erg s", "erg*s", True), ("M_sun", "M_sol", True),
+             ("km", "k m", None)]
+
+
 def configs(tier):
     out = []
     n = 3 if tier == "quick" else 9
@@ -53,6 +58,11 @@ def configs(tier):
             out.append(dict(kind="catalogue", name=name, alias=alias))
     for name, al in U.ALIASES.items():
         out.append(dict(kind="aliases", name=name))
+    # spellings: pairs that must denote the same unit / different units, in both orders within one process
+    # (pint reads a space as a product: "m s" is metre*second, "ms" is millisecond)
+    for a, b, same in SPELLINGS:
+        out.append(dict(kind="spelling", a=a, b=b, same=same))
+        out.append(dict(kind="spelling", a=b, b=a, same=same))
     return out
 
 
@@ -97,6 +107,37 @@ def body(m, cfg):
         m.require(dc == tuple(do), "dimension of the defined unit", key=f"catalogue-dim:{name}")
         m.check(f"{alias} has its accepted CGS value", m.close(m.t(r.values) * fc, m.t(x) * fo, tol=1e-3),
                 key=f"catalogue:{name}")
+        return
+    if kind == "spelling":
+        a, b, same = cfg["a"], cfg["b"], cfg["same"]
+        try:
+            ua = osyris.units(a)
+            ub = osyris.units(b)
+        except Exception:
+            m.require(same is None, f"units({a!r}) / units({b!r}) parse", key=f"spelling-parse:{a}|{b}")
+            return
+        if same is None:
+            return
+        eq = (ua == ub)
+        m.require(eq == same, f"units({a!r}) and units({b!r}) are {'the same' if same else 'different'} units", key=f"spelling:{a}|{b}")
+        x = m.real("x")
+        try:
+            r = Array(x, unit=a).to(b)
+            conv = True
+        except DimensionalityError:
+            conv = False
+        da_, db_ = None, None
+        try:
+            da_, db_ = U.factor_dim(ua), U.factor_dim(ub)
+        except U.UnknownUnit:
+            return
+        if da_[1] == db_[1]:
+            m.require(conv, "compatible units convert", key=f"spelling-convert:{a}|{b}")
+            if conv:
+                m.check("conversion between the two spellings preserves the quantity", m.close(m.t(r.values) * db_[0], m.t(x) * da_[0]),
+                        key=f"spelling-convert:{a}|{b}")
+        else:
+            m.require(not conv, "different dimensions refuse to convert", key=f"spelling-convert:{a}|{b}")
         return
     if kind == "aliases":
         us = [osyris.units(al) for al in U.ALIASES[cfg["name"]]]
